@@ -263,6 +263,8 @@ def run(ctx):
 
     # ---------------- C07.e
     adm = (p.method(RECORDER, "add_description_if_missing") or [None])[0]
+    adm_slots = {}
+    NAME_VIEW = ("KeyName::as_str", "as_str", "Deref::deref", "AsRef::as_ref", "Borrow::borrow")
     if need(chk, "C07.e", "add_description_if_missing", adm):
         sy = Sym(adm)
         ent = [c for c in nonforeign_calls(adm) if strip_generics(c.resolved or "").split("::")[-1] in ("or_insert", "or_insert_with")]
@@ -289,8 +291,19 @@ def run(ctx):
             recv = strip_sym(_recv_override) if _recv_override is not None else strip_sym(arg_syms(ent[0])[0])
             ok = sym_is_call(recv, "entry") and sym_is_call(strip_sym(recv[2][1]), "formatting::sanitize_metric_name")
             v = strip_sym(arg_syms(ent[0])[1])
-            if v[0] == "agg" and v[1] == "tuple":
-                ok = ok and is_param(v[3][0], 2) and is_param(v[3][1], 3)
+            # which of the helper's own parameters carry the name / the description / the unit (the describe_* callers are
+            # held to exactly these positions below, so a private signature change is followed on both sides)
+            kp = sym_arg(sym_through(strip_sym(recv[2][1])[2][0], *NAME_VIEW)) if ok else None
+            adm_slots["name"] = kp[0] if kp else None
+            if v[0] == "agg" and v[1] == "tuple" and len(v[3]) == 2:
+                d_, u_ = sym_arg(v[3][0]), sym_arg(v[3][1])
+                ok = ok and d_ is not None and u_ is not None and d_[0] != u_[0]
+                if ok:
+                    adm_slots["desc"], adm_slots["unit"] = d_[0], u_[0]
+            elif sym_arg(v) is not None:
+                adm_slots["pair"] = sym_arg(v)[0]
+            else:
+                ok = False
         chk.ob("C07.e", adm.path, ok, "descriptions.entry(sanitised name).or_insert((description, unit)) and nothing else" if ok else "an existing description can be replaced (write through the entry / insert): HELP would not show the first description", adm.loc())
     # ... and is looked up under the name it was stored under: the key of the descriptions.get() whose result becomes the HELP
     # text is the family's sanitised name as iterated, never a name built afterwards (the unit-suffixed one)
@@ -322,10 +335,16 @@ def run(ctx):
             if f:
                 cs = [c for c in nonforeign_calls(f) if c.is_("PrometheusRecorder::add_description_if_missing")]
                 VIEW = ("Deref::deref", "AsRef::as_ref", "Borrow::borrow", "Arc<T>::deref", "Arc<T, A>::deref")
-                ok = len(cs) == 1 and all((c.fn is cs[0].fn and c.bb == cs[0].bb) or c.is_(*VIEW) for c in nonforeign_calls(f))
+                ok = len(cs) == 1 and all((c.fn is cs[0].fn and c.bb == cs[0].bb) or c.is_(*VIEW) or c.is_("KeyName::as_str") for c in nonforeign_calls(f))
                 if ok:
                     a = arg_syms(cs[0])
-                    ok = is_param(sym_through(a[1], *VIEW), 1) and is_param(a[2], 3) and is_param(a[3], 2)
+                    n_, d_, u_, t_ = (adm_slots.get(x) for x in ("name", "desc", "unit", "pair"))
+                    ok = n_ is not None and n_ < len(a) and is_param(sym_through(a[n_], *VIEW, *NAME_VIEW), 1)
+                    if t_ is not None:
+                        pv = strip_sym(a[t_]) if t_ < len(a) else ("unknown",)
+                        ok = ok and pv[0] == "agg" and pv[1] == "tuple" and len(pv[3]) == 2 and is_param(pv[3][0], 3) and is_param(pv[3][1], 2)
+                    else:
+                        ok = ok and d_ is not None and u_ is not None and max(d_, u_) < len(a) and is_param(a[d_], 3) and is_param(a[u_], 2)
                 chk.ob("C07.e", f.path, ok, "add_description_if_missing(&name, description, unit)" if ok else "describe does not pass (name, description, unit) to add_description_if_missing in those positions", f.loc())
             f = rec.get(f"register_{k}")
             if f:
